@@ -42,6 +42,26 @@ type packedSplit struct {
 	header    []ssa.Value
 	septets   ssa.Value
 	twin      bool
+	// the recorded-boundaries form: the first loop appends every cursor value to a list, the second ranges over it
+	listForm bool
+	list     *ssa.Phi  // the list (header phi of the recording loop)
+	idxV     ssa.Value // the part index counting from 0 (the counter phi, or the range index of the list form)
+}
+
+// countIs: v is the number of parts (the counting loop's counter, or len(list) in the recorded form).
+func (g *packedSplit) countIs(v ssa.Value) bool {
+	if v == nil {
+		return false
+	}
+	if g.listForm {
+		call, ok := v.(*ssa.Call)
+		if !ok || len(call.Call.Args) != 1 || call.Call.Args[0] != ssa.Value(g.list) {
+			return false
+		}
+		bi, ok := call.Call.Value.(*ssa.Builtin)
+		return ok && bi.Name() == "len"
+	}
+	return g.msgCount != nil && v == ssa.Value(g.msgCount)
 }
 
 // appendChain follows b = append(b, x) from a zero-length make and returns the first n single values appended.
@@ -621,11 +641,20 @@ func extractPackedSplit(c *core.Ctx) *packedSplit {
 	l1, why1 := match(loops[0])
 	l2, why2 := match(loops[1])
 	if l1 == nil || l2 == nil {
+		if why := g.matchRecorded(p, loops[0], loops[1]); why == "" {
+			g.header, _ = headerOf(fn)
+			g.ok = len(g.problems) == 0
+			return g
+		} else if g.listForm {
+			g.problems = append(g.problems, why)
+			return g
+		}
 		g.problems = append(g.problems, why1+why2)
 		return g
 	}
 	g.msgCount, g.countCall = l1.counter, l1.call
 	g.idx, g.begin, g.endCall = l2.counter, l2.cursor, l2.call
+	g.idxV = l2.counter
 	g.septets = l2.call.Call.Args[0]
 	g.helper = l2.call.Call.StaticCallee()
 	g.twin = l1.call.Call.StaticCallee() == l2.call.Call.StaticCallee() && l1.call.Call.Args[0] == l2.call.Call.Args[0] &&
@@ -845,4 +874,264 @@ func condFactsOf(p *prover.F, e paths.Event) []prover.Lin {
 		return []prover.Lin{y.Add(x, -1).Add(prover.Const(1), -1)}
 	}
 	return nil
+}
+
+// matchRecorded recognises the recorded-boundaries form of the packed splitter:
+//
+//	for c := 0; c < len(s); { c = partEnd(s, c, k); ends = append(ends, c) }     // recording loop
+//	n := len(ends) ...
+//	b := 0; for i, e := range ends { ... s[b:e] ...; b = e }                       // cutting loop
+//
+// The list holds the cursor values of the recurrence in order (it starts empty, receives exactly the new cursor on every
+// iteration, and is only read afterwards); the cutting loop visits every element in order, cuts [b, e) and moves b to e on
+// every iteration. The parts are therefore the same as with two loops iterating the recurrence: [c_j, c_{j+1}).
+// It returns "" on a match; listForm is set as soon as a list of recorded cursors was seen (the reason then explains
+// what does not fit).
+func (g *packedSplit) matchRecorded(p *prover.F, rec, cut *prover.Loop) string {
+	fn := g.fn
+	// recording loop: cursor and list phis
+	var cursor, list *ssa.Phi
+	var call, app *ssa.Call
+	for _, ins := range rec.Header.Instrs {
+		ph, ok := ins.(*ssa.Phi)
+		if !ok {
+			break
+		}
+		if isIntType(ph.Type()) {
+			okc := true
+			var cc *ssa.Call
+			for i, pred := range rec.Header.Preds {
+				if !rec.Blocks[pred] {
+					if k, isK := constInt(ph.Edges[i]); !isK || k != 0 {
+						okc = false
+					}
+					continue
+				}
+				x, isCall := ph.Edges[i].(*ssa.Call)
+				if !isCall || x.Call.StaticCallee() == nil || x.Call.StaticCallee().Pkg != fn.Pkg || len(x.Call.Args) != 3 || x.Call.Args[1] != ssa.Value(ph) {
+					okc = false
+				} else {
+					cc = x
+				}
+			}
+			if okc && cc != nil {
+				cursor, call = ph, cc
+			}
+			continue
+		}
+		if _, isSlice := ph.Type().Underlying().(*types.Slice); isSlice {
+			okl := true
+			var ac *ssa.Call
+			for i, pred := range rec.Header.Preds {
+				if !rec.Blocks[pred] {
+					switch e := ph.Edges[i].(type) {
+					case *ssa.Const:
+						if !e.IsNil() {
+							okl = false
+						}
+					case *ssa.MakeSlice:
+						if k, isK := constInt(e.Len); !isK || k != 0 {
+							okl = false
+						}
+					default:
+						okl = false
+					}
+					continue
+				}
+				x, isCall := ph.Edges[i].(*ssa.Call)
+				if !isCall {
+					okl = false
+					continue
+				}
+				if bi, isB := x.Call.Value.(*ssa.Builtin); !isB || bi.Name() != "append" || x.Call.Args[0] != ssa.Value(ph) {
+					okl = false
+					continue
+				}
+				ac = x
+			}
+			if okl && ac != nil {
+				list, app = ph, ac
+			}
+		}
+	}
+	if list == nil || cursor == nil {
+		return "no recording loop (cursor `c = partEnd(s, c, k)` and a list that receives it)"
+	}
+	g.listForm, g.list = true, list
+	// what is appended: exactly the new cursor value
+	one := false
+	if sl, ok := app.Call.Args[1].(*ssa.Slice); ok {
+		if al, ok := sl.X.(*ssa.Alloc); ok {
+			if vs := arrayStores(al); len(vs) == 1 && vs[0] == ssa.Value(call) {
+				one = true
+			}
+		}
+	}
+	if !one {
+		return "the recording loop does not append exactly the new cursor value to the list"
+	}
+	for _, lt := range rec.Latches {
+		if !app.Block().Dominates(lt) || !call.Block().Dominates(lt) {
+			return "a boundary can go unrecorded (the append does not dominate the back edge)"
+		}
+	}
+	// the loop runs while cursor < len(s)
+	ifi, ok := rec.Header.Instrs[len(rec.Header.Instrs)-1].(*ssa.If)
+	if !ok {
+		return "the recording loop header does not test the cursor"
+	}
+	bo, ok := ifi.Cond.(*ssa.BinOp)
+	stay := ok && rec.Blocks[rec.Header.Succs[0]] && !rec.Blocks[rec.Header.Succs[1]]
+	if !stay || !((bo.Op == token.LSS && bo.X == ssa.Value(cursor)) || (bo.Op == token.GTR && bo.Y == ssa.Value(cursor))) {
+		return "the recording loop does not run while cursor < len(septets)"
+	}
+	bound := bo.Y
+	if bo.Op == token.GTR {
+		bound = bo.X
+	}
+	if d := p.LinOf(bound).Add(p.LenOf(call.Call.Args[0]), -1); !d.IsConst() || d.C != 0 {
+		return "the recording loop's bound is not the length of the septet buffer passed to the boundary helper"
+	}
+	// afterwards the list is only read: len(list), list[i] loads, range
+	var loads []*ssa.UnOp
+	if list.Referrers() != nil {
+		for _, r := range *list.Referrers() {
+			switch x := r.(type) {
+			case *ssa.Call:
+				if x == app {
+					continue
+				}
+				if bi, isB := x.Call.Value.(*ssa.Builtin); isB && bi.Name() == "len" {
+					continue
+				}
+				return "the list of boundaries is passed on or changed after it was recorded (" + x.String() + ")"
+			case *ssa.IndexAddr:
+				if x.Referrers() != nil {
+					for _, rr := range *x.Referrers() {
+						if ld, isLd := rr.(*ssa.UnOp); isLd && ld.Op == token.MUL {
+							loads = append(loads, ld)
+							continue
+						}
+						if _, isDbg := rr.(*ssa.DebugRef); isDbg {
+							continue
+						}
+						return "an element of the list of boundaries is written or its address taken"
+					}
+				}
+			case *ssa.DebugRef:
+			default:
+				return "the list of boundaries is used other than by len, indexing and range (" + r.String() + ")"
+			}
+		}
+	}
+	// cutting loop: range over the list
+	var ridx, begin *ssa.Phi
+	var iv ssa.Value
+	for _, ins := range cut.Header.Instrs {
+		ph, ok := ins.(*ssa.Phi)
+		if !ok {
+			break
+		}
+		if !isIntType(ph.Type()) {
+			continue
+		}
+		isR := true
+		for i, pred := range cut.Header.Preds {
+			if !cut.Blocks[pred] {
+				if k, isK := constInt(ph.Edges[i]); !isK || k != -1 {
+					isR = false
+				}
+				continue
+			}
+			if !isAddOne(ph.Edges[i], ph) {
+				isR = false
+			} else {
+				iv = ph.Edges[i]
+			}
+		}
+		if isR {
+			ridx = ph
+		}
+	}
+	if ridx == nil {
+		return "the cutting loop is not a range over the list of boundaries"
+	}
+	for _, ins := range cut.Header.Instrs {
+		if b, ok := ins.(*ssa.BinOp); ok && isAddOne(b, ridx) {
+			iv = b
+		}
+	}
+	cifi, ok := cut.Header.Instrs[len(cut.Header.Instrs)-1].(*ssa.If)
+	if !ok {
+		return "the cutting loop is not a range over the list of boundaries"
+	}
+	cbo, ok := cifi.Cond.(*ssa.BinOp)
+	if !ok || cbo.Op != token.LSS || cbo.X != iv || !g.countIs(cbo.Y) || !cut.Blocks[cut.Header.Succs[0]] || cut.Blocks[cut.Header.Succs[1]] {
+		return "the cutting loop does not visit every recorded boundary (index < len(list))"
+	}
+	// the element of this iteration
+	var end *ssa.UnOp
+	for _, ld := range loads {
+		if ia := ld.X.(*ssa.IndexAddr); ia.Index == iv && cut.Blocks[ld.Block()] {
+			end = ld
+		}
+	}
+	if end == nil {
+		return "the cutting loop does not read the boundary of its iteration (list[i])"
+	}
+	for _, ld := range loads {
+		if ld != end {
+			return "the list of boundaries is read at another place than list[i] of the cutting loop"
+		}
+	}
+	// the running begin: 0 at entry, the boundary just used on every back edge
+	for _, ins := range cut.Header.Instrs {
+		ph, ok := ins.(*ssa.Phi)
+		if !ok {
+			break
+		}
+		if !isIntType(ph.Type()) || ph == ridx {
+			continue
+		}
+		good := true
+		for i, pred := range cut.Header.Preds {
+			if !cut.Blocks[pred] {
+				if k, isK := constInt(ph.Edges[i]); !isK || k != 0 {
+					good = false
+				}
+				continue
+			}
+			if ph.Edges[i] != ssa.Value(end) {
+				good = false
+			}
+		}
+		if good {
+			begin = ph
+		}
+	}
+	if begin == nil {
+		return "the cutting loop has no running start that begins at 0 and moves to the boundary just used on every iteration"
+	}
+	g.begin, g.endCall, g.countCall = begin, call, call
+	g.idxV = iv
+	g.septets = call.Call.Args[0]
+	g.helper = call.Call.StaticCallee()
+	g.twin = true
+	for _, b := range fn.Blocks {
+		for _, ins := range b.Instrs {
+			if sl, ok := ins.(*ssa.Slice); ok && sl.X == g.septets && sl.Low == ssa.Value(begin) && sl.High == ssa.Value(end) {
+				g.slice = sl
+			}
+		}
+	}
+	if g.slice == nil {
+		g.problems = append(g.problems, "the part packed is not septets[begin:list[i]]")
+	} else {
+		for _, lt := range cut.Latches {
+			if !g.slice.Block().Dominates(lt) {
+				g.problems = append(g.problems, "a part can be skipped (the payload slice does not dominate the back edge)")
+			}
+		}
+	}
+	return ""
 }
